@@ -186,6 +186,22 @@ func (e swapVerboseErr) Format(f fmt.State, c rune) {
 	}
 }
 
+// wrapManyVerboseErr: a rich error in the Go 1.20 style - it wraps SEVERAL errors (Unwrap() []error), which is not
+// the Errors() []error convention zap expands into causes, and has a verbose %+v form like any other Formatter.
+type wrapManyVerboseErr struct{ s string }
+
+func (e wrapManyVerboseErr) Error() string { return e.s }
+func (e wrapManyVerboseErr) Unwrap() []error {
+	return []error{errors.New("wrapped one"), errors.New("wrapped two")}
+}
+func (e wrapManyVerboseErr) Format(f fmt.State, c rune) {
+	if c == 'v' && f.Flag('+') {
+		fmt.Fprint(f, e.s+"\nverbose\t\"x\"")
+	} else {
+		fmt.Fprint(f, e.s)
+	}
+}
+
 // plainFmtErr implements fmt.Formatter but %+v == Error(): no Verbose key expected.
 type plainFmtErr struct{ s string }
 
@@ -262,6 +278,11 @@ func (e *errSpec) build() error {
 		return plainFmtErr{e.Msg}
 	case "swapverbose":
 		return swapVerboseErr{e.Msg}
+	case "wrapmany-verbose":
+		return wrapManyVerboseErr{e.Msg}
+	case "joined":
+		// errors.Join: an error like any other for zap (its text is the members' texts, one per line)
+		return errors.Join(errors.New(e.Msg), errors.New("joined"))
 	case "group":
 		g := groupErr{msg: e.Msg}
 		for _, k := range e.Kids {
@@ -309,7 +330,7 @@ func genErrSpec(t *rapid.T, depth int, faults bool) *errSpec {
 		}
 		return cur
 	}
-	kinds := []string{"plain", "plain", "verbose", "plainfmt", "ptr", "detail", "swapverbose"}
+	kinds := []string{"plain", "plain", "verbose", "plainfmt", "ptr", "detail", "swapverbose", "wrapmany-verbose", "joined"}
 	if depth > 0 {
 		kinds = append(kinds, "group", "group")
 	}
